@@ -115,7 +115,40 @@ impl Property for C05 {
                 Tier::Quick => 4,
                 Tier::Thorough => 5,
             };
-            let docs = super::smallscope::documents_over(max_nodes, super::c04::SMALL_NAMES);
+            let mut docs = super::smallscope::documents_over(max_nodes, super::c04::SMALL_NAMES);
+            // flat elements over names that collide and leave gaps in the numeric suffixes (foo_1, foo_3)
+            {
+                const N: &[&str] = &["foo", "Foo", "FOO", "foo_1", "foo_3", "foo-2", "fOO"];
+                fn seqs(max: usize, cur: &mut Vec<usize>, out: &mut Vec<Vec<usize>>) {
+                    out.push(cur.clone());
+                    if cur.len() == max {
+                        return;
+                    }
+                    for i in 0..N.len() {
+                        if !cur.contains(&i) {
+                            cur.push(i);
+                            seqs(max, cur, out);
+                            cur.pop();
+                        }
+                    }
+                }
+                let mut cs = Vec::new();
+                seqs(if max_nodes >= 5 { 6 } else { 5 }, &mut Vec::new(), &mut cs);
+                let mut asq = Vec::new();
+                seqs(2, &mut Vec::new(), &mut asq);
+                for (ci, c) in cs.iter().enumerate() {
+                    for (ai, a) in asq.iter().enumerate() {
+                        if c.len() >= 4 && (ai + ci) % 8 != 0 {
+                            continue;
+                        }
+                        docs.push(crate::model::Node {
+                            name: "foo".into(),
+                            attrs: a.iter().map(|i| N[*i].to_string()).collect(),
+                            items: c.iter().map(|i| crate::model::Item::Child(crate::model::Node { name: N[*i].to_string(), attrs: vec![], items: vec![] })).collect(),
+                        });
+                    }
+                }
+            }
             let (evals, nts, fail) = super::smallscope::run_tuples_over(docs, 1, |_d, bytes| {
                 let mut first: Option<String> = None;
                 for _ in 0..4 {
